@@ -13,7 +13,19 @@ fn arg<T: std::str::FromStr>(args: &[String], name: &str, default: T) -> T {
         .unwrap_or(default)
 }
 
+pub fn panic_text(e: &Box<dyn std::any::Any + Send>) -> String {
+    let s = if let Some(s) = e.downcast_ref::<&str>() {
+        s.to_string()
+    } else if let Some(s) = e.downcast_ref::<String>() {
+        s.clone()
+    } else {
+        "?".to_string()
+    };
+    s.replace(char::is_whitespace, "_")
+}
+
 fn main() {
+    std::panic::set_hook(Box::new(|_| {}));
     let args: Vec<String> = std::env::args().collect();
     let family = args.get(1).map(|s| s.as_str()).unwrap_or("");
     let seed: u64 = arg(&args, "--seed", 1);
